@@ -1,7 +1,7 @@
 // ===== SPEC (nnumcmp): exact comparison across levels (C08) and value-determined hashing (C09) =====
 verus! {
 
-broadcast use lemma_trunc_floor_int, bool_ord;
+broadcast use lemma_trunc_floor_int, bool_ord, f_bits_inf, lemma_hwords_assoc;
 
 // exact extended-real value of a real number of any level
 pub open spec fn rv(x: NNumReal) -> FV {
@@ -38,30 +38,44 @@ pub open spec fn num_is_nan(v: NumV) -> bool { proj(v).0 is NaN || proj(v).1 is 
 // dictionary-key equality: `==`, with NaN equal to itself
 pub open spec fn key_num_eq(a: NumV, b: NumV) -> bool { num_eq_spec(a, b) || (num_is_nan(a) && num_is_nan(b)) }
 
-// ---- hashing: the words a number writes are a function of its exact value (so equal keys hash equally) ----
-pub open spec fn real_hash_words(v: FV, f: f64) -> VSeq<HWord> {
-    match v {
-        FV::Fin(x) => if x == ir(x.floor()) { seq![nint_hash_word(x.floor())] } else { frac_hash_words(x) },
-        FV::NaN => seq![HWord::U64(0x7FF0000000000001u64)],
-        FV::PosInf => seq![HWord::U64(f_bits(f))],
-        FV::NegInf => seq![HWord::U64(f_bits(f))],
-    }
-}
+// ---- hashing: the words a number writes are a function of its exact value, so equal keys hash equally (C09) ----
+pub open spec fn NAN_WORD() -> HWord { HWord::U64(0x7FF0000000000001u64) }
 // words for a non-integral finite value: the lowest-terms numerator and denominator (the same for a float and for the
 // equal rational)
 pub open spec fn frac_hash_words(x: real) -> VSeq<HWord> { seq![HWord::Big(rat_numer(x)), HWord::Big(rat_denom(x))] }
 pub open spec fn fin_hash_words(x: real) -> VSeq<HWord> {
     if x == ir(x.floor()) { seq![nint_hash_word(x.floor())] } else { frac_hash_words(x) }
 }
-pub open spec fn part_hash_words(v: FV, f: f64) -> VSeq<HWord> { real_hash_words(v, f) }
-pub open spec fn num_hash_words(v: NumV) -> VSeq<HWord> {
+pub open spec fn real_hash_words(v: FV) -> VSeq<HWord> {
     match v {
-        NumV::Int(i) => seq![nint_hash_word(i)],
-        NumV::Rat(x) => fin_hash_words(x),
-        NumV::Flt(f) => real_hash_words(fv(f), f),
-        // a complex number with zero imaginary part is == to its real part and must hash like it
-        NumV::Cpx(z) => if fv_eq(fv(z.im), FV::Fin(0real)) { real_hash_words(fv(z.re), z.re) } else { real_hash_words(fv(z.re), z.re) + real_hash_words(fv(z.im), z.im) },
+        FV::Fin(x) => fin_hash_words(x),
+        FV::NaN => seq![NAN_WORD()],
+        FV::PosInf => seq![HWord::U64(0x7FF0000000000000u64)],
+        FV::NegInf => seq![HWord::U64(0xFFF0000000000000u64)],
     }
+}
+pub open spec fn num_hash_words(v: NumV) -> VSeq<HWord> {
+    if num_is_nan(v) { seq![NAN_WORD()] } else {
+        match v {
+            NumV::Int(i) => seq![nint_hash_word(i)],
+            NumV::Rat(x) => fin_hash_words(x),
+            NumV::Flt(f) => real_hash_words(fv(f)),
+            // a complex number with zero imaginary part is == to its real part and must hash like it
+            NumV::Cpx(z) => if fv_eq(fv(z.im), FV::Fin(0real)) { real_hash_words(fv(z.re)) } else { real_hash_words(fv(z.re)) + real_hash_words(fv(z.im)) },
+        }
+    }
+}
+
+// THE LAW (C09): numbers that are equal as dictionary keys write the same words
+pub proof fn lemma_equal_keys_hash_equally(a: NumV, b: NumV)
+    requires key_num_eq(a, b)
+    ensures num_hash_words(a) == num_hash_words(b)
+{
+}
+// and the key equality is an equivalence relation (reflexive incl. NaN, symmetric, transitive)
+pub proof fn lemma_key_eq_equivalence(a: NumV, b: NumV, c: NumV)
+    ensures key_num_eq(a, a), key_num_eq(a, b) == key_num_eq(b, a), (key_num_eq(a, b) && key_num_eq(b, c)) ==> key_num_eq(a, c)
+{
 }
 
 } // verus!
